@@ -121,7 +121,9 @@ func newConcSUT(kind string, rng *rand.Rand) (*concSUT, error) {
 	case "bm25":
 		idx := comet.NewBM25SearchIndex()
 		s.removeOKWhenAbsent = true
-		s.add = func(id uint32, rng *rand.Rand) error { return idx.Add(id, fmt.Sprintf("common w%d w%d", rng.IntN(5), rng.IntN(5))) }
+		s.add = func(id uint32, rng *rand.Rand) error {
+			return idx.Add(id, fmt.Sprintf("common w%d w%d", rng.IntN(5), rng.IntN(5)))
+		}
 		s.remove = idx.Remove
 		toSet := func(res []comet.TextResult) map[uint32]bool {
 			m := map[uint32]bool{}
